@@ -4,6 +4,9 @@ import Casm.Proofs.StableId
 import Casm.Proofs.KindInv
 import Casm.Proofs.FrontOKb
 import Casm.Proofs.FrontSyms
+import Casm.Proofs.BudgetOne
+import Casm.Proofs.FrontUniq
+import Casm.Proofs.FrontInv
 import Casm.Props.C01
 /-!
 # C02 — a successful result is a genuine fixed point, never a stale guess
@@ -172,10 +175,12 @@ theorem every_pass_output_is_well_formed (st : Static) (nodes : List AstNode) (f
 def FixedPoint (st : Static) (nodes : List AstNode) (d : Defs) : Prop :=
   resolveOnce st nodes false true d = .ok (d, true, [])
 
-/-- **C02.** Whenever assembly succeeds with a budget of at least two passes, the state from
-    which the output is read is a fixed point of the strict pass. -/
-theorem success_is_fixed_point (opts : Opts) (fs : SrcFiles) (roots : List (List Char)) (res : AsmOk)
-    (hb : 2 ≤ opts.maxIter) (h : assemble opts fs roots = .ok res) :
+/-- **C02.** Whenever assembly succeeds — with any budget of at least one pass — the state from
+    which the output is read is a fixed point of the strict pass.  (With a budget of one pass the only
+    pass is first, strict and stable; that its result is a fixed point of the later strict pass is
+    `Casm.Proofs.CornerLast`, which needs the front end's `Uniq` and `NodesOK`, both proved of it.) -/
+theorem success_is_fixed_point_at_every_budget (opts : Opts) (fs : SrcFiles) (roots : List (List Char)) (res : AsmOk)
+    (hb : 1 ≤ opts.maxIter) (h : assemble opts fs roots = .ok res) :
     ∃ st nodes defs0 d, frontEnd opts fs roots = .ok (st, nodes, defs0) ∧
       FixedPoint st nodes d ∧ ReadFrom st nodes d res := by
   unfold assemble at h
@@ -198,7 +203,8 @@ theorem success_is_fixed_point (opts : Opts) (fs : SrcFiles) (roots : List (List
         refine ⟨st, nodes, defs0, d, rfl, ?_, ?_⟩
         · have hwf : NoClash nodes := frontEnd_noClash opts fs roots st nodes defs0 hf
           unfold resolveIteratively at hr
-          obtain ⟨r, pre, hfix, hrep⟩ := resolveIterativelyN_fixed_point st nodes st.opts.maxIter (by rw [hst]; exact hb) hwf defs0 iters d [] hr
+          obtain ⟨r, pre, hfix, hrep⟩ := resolveIterativelyN_fixed_point_any st nodes st.opts.maxIter (by rw [hst]; exact hb) hwf
+            (frontEnd_uniq opts fs roots st nodes defs0 hf) defs0 (frontEnd_nodesOK opts fs roots st nodes defs0 hf) iters d [] hr
           have : r = [] := by
             cases pre with
             | nil => simpa using hrep.symm
@@ -217,6 +223,13 @@ theorem success_is_fixed_point (opts : Opts) (fs : SrcFiles) (roots : List (List
                 subst h
                 exact ⟨⟨bst, hbuild, rfl, rfl⟩, rfl⟩
 
+/-- the same with the budget of at least two passes the earlier statements assumed -/
+theorem success_is_fixed_point (opts : Opts) (fs : SrcFiles) (roots : List (List Char)) (res : AsmOk)
+    (hb : 2 ≤ opts.maxIter) (h : assemble opts fs roots = .ok res) :
+    ∃ st nodes defs0 d, frontEnd opts fs roots = .ok (st, nodes, defs0) ∧
+      FixedPoint st nodes d ∧ ReadFrom st nodes d res :=
+  success_is_fixed_point_at_every_budget opts fs roots res (by omega) h
+
 /-- the state with every first-pass mark cleared is a fixed point of the strict pass: recomputing
     **every** item — also those the static optimisation froze in the first pass — from the final
     values reproduces the state from which the output is read -/
@@ -224,16 +237,16 @@ def FullFixedPoint (st : Static) (nodes : List AstNode) (d : Defs) : Prop :=
   resolveOnce st nodes false true d.unfreeze = .ok (d.unfreeze, true, [])
 
 /-- **C02, the statement in full for the optimised assembler.**  Whenever assembly succeeds with
-    the static optimisation on and a budget of at least two passes, recomputing every instruction,
+    the static optimisation on and any budget of at least one pass, recomputing every instruction,
     data element, label and constant from the final state — nothing skipped — is stable, silent and
     reproduces that state.  No hypothesis on the program is left: what the proof needs about the
     front end's output (`FrontOK`) is proved of the front end (`frontEnd_frontOK`); its decision
     procedure `frontOKb` is still evaluated by the certificate of every correspondence run. -/
-theorem success_recomputes_everything (opts : Opts) (fs : SrcFiles) (roots : List (List Char)) (res : AsmOk)
-    (hb : 2 ≤ opts.maxIter) (ho : opts.optStatic = true) (h : assemble opts fs roots = .ok res) :
+theorem success_recomputes_everything_at_every_budget (opts : Opts) (fs : SrcFiles) (roots : List (List Char)) (res : AsmOk)
+    (hb : 1 ≤ opts.maxIter) (ho : opts.optStatic = true) (h : assemble opts fs roots = .ok res) :
     ∃ st nodes defs0 d, frontEnd opts fs roots = .ok (st, nodes, defs0) ∧ ReadFrom st nodes d res ∧
       FullFixedPoint st nodes d := by
-  obtain ⟨st, nodes, defs0, d, hf, _, hread⟩ := success_is_fixed_point opts fs roots res hb h
+  obtain ⟨st, nodes, defs0, d, hf, _, hread⟩ := success_is_fixed_point_at_every_budget opts fs roots res hb h
   have hst : st.opts = opts := (frontEnd_opts opts fs roots st nodes defs0 hf).1
   -- the same final state `d`: re-derive it from the iteration
   unfold assemble at h
@@ -265,14 +278,20 @@ theorem success_recomputes_everything (opts : Opts) (fs : SrcFiles) (roots : Lis
       have ho' : st.opts.optStatic = true := by rw [hst]; exact ho
       have f := frontEnd_frontOK opts ho fs roots st nodes defs0 hf
       unfold resolveIteratively at hr
-      obtain ⟨r, pre, hfix, hrep⟩ := resolveIterativelyN_full_fixed_point st nodes defs0 f st.opts.maxIter
-        (by rw [hst]; exact hb) ho' hwf iters d' [] hr
+      obtain ⟨r, pre, hfix, hrep⟩ := resolveIterativelyN_full_fixed_point_any st nodes defs0 f st.opts.maxIter
+        (by rw [hst]; exact hb) ho' hwf (frontEnd_uniq opts fs roots st nodes defs0 hf) (frontEnd_nodesOK opts fs roots st nodes defs0 hf) iters d' [] hr
       have : r = [] := by
         cases pre with
         | nil => simpa using hrep.symm
         | cons a t => simp at hrep
       rw [this] at hfix
       exact hfix
+
+theorem success_recomputes_everything (opts : Opts) (fs : SrcFiles) (roots : List (List Char)) (res : AsmOk)
+    (hb : 2 ≤ opts.maxIter) (ho : opts.optStatic = true) (h : assemble opts fs roots = .ok res) :
+    ∃ st nodes defs0 d, frontEnd opts fs roots = .ok (st, nodes, defs0) ∧ ReadFrom st nodes d res ∧
+      FullFixedPoint st nodes d :=
+  success_recomputes_everything_at_every_budget opts fs roots res (by omega) ho h
 
 /-- **In a fixed point every item recomputes to itself**: each node of the program, at its own
     position, is resolved on the final state `d` and returns `d`, stable. -/
